@@ -1,8 +1,10 @@
 SETUP = 'python3 tools/setup.py'
 ENGINES = [
-    dict(name='verus-weave', path='tools/weave.py + contracts/*.vspec', serves_properties=['C13'],
+    dict(name='native-bounded', path='tools/driver.py + native/**/*.rs', serves_properties=['C11', 'C12', 'C02'],
+         kind_free_text='bounded stand-in: exhaustive enumeration of a stated finite input space on the compiled real code (test module appended to a scratch copy); used only where neither Verus nor Kani can reach the function'),
+    dict(name='verus-weave', path='tools/weave.py + contracts/*.vspec', serves_properties=['C13', 'C09'],
          kind_free_text='deductive verification (Verus/Z3) of functions extracted verbatim from /repo on every run, contracts spliced in'),
-    dict(name='kani-contracts', path='tools/driver.py + kani/<crate>/*.rs', serves_properties=[],
+    dict(name='kani-contracts', path='tools/driver.py + kani/<crate>/*.rs', serves_properties=['C02', 'C07', 'C10', 'C18'],
          kind_free_text='Kani/CBMC contract harnesses compiled into a scratch copy of the real crate as child modules (inductive-step pre/post over all well-formed states)'),
 ]
 NOTES = 'Contract-based deductive verification of the real code; see DESIGN.md. exit 2 = undecided (never an alarm).'
@@ -10,7 +12,29 @@ NOT_APPLICABLE = {
     'C14': 'isolation across recycled connection ids is a statement about histories of two asynchronous links and broker.rs::remote(); it needs per-slot generation ghost state the code does not carry, and neither Verus (async, closures) nor Kani (ICE on Router::new, no async runtime) can hold a Router plus two link tasks',
     'C16': 'will fire/cancel is decided by an async task with timers and channels (broker.rs::remote()) plus a &mut Router method; nothing that decides it is inside the Verus subset or constructible under Kani (ICE on Router::new)',
 }
+_KANI_STATE = 'Kani/CBMC inductive-step contracts on the real MqttState methods (child module in a scratch copy of the crate): assume wf(pre) for ALL states of a bounded table, run one real operation with full-domain symbolic arguments, assert postcondition and wf(post); counterexamples replayed natively'
 CHECKS = {
+    'C02': dict(engine='kani-contracts', technique=_KANI_STATE + '; clean() content by exhaustive native enumeration (bounded stand-in)',
+        level='Bounded proof of an inductive invariant (table size max_inflight <= 2 quick / 4 thorough; ids, QoS, flags, reason codes full domain) for v4 and v5: every accepted QoS>0 publish stays in a slot, in the release set or parked until its final ack or until clean() hands it back; labelled bounded, not an unbounded proof. Two genuine defects are recorded as known findings, five were repaired by fix: commits.',
+        note='Trusted: Kani/CBMC, harness-built pre-states (all wf states), zeroed Instants, empty topic/payload. Async EventLoop composition unverified.'),
+    'C07': dict(engine='kani-contracts', technique=_KANI_STATE + '; next_pkid as a loop-free complete harness over all limits',
+        level='next_pkid: complete for all max_inflight 1..=65535. Id range/freshness, exact inflight counter, collision-only-while-held: bounded in table size only (n <= 2 quick / 4 thorough), v4 and v5 incl. CONNACK receive-maximum.',
+        note='Trusted: Kani/CBMC, harness-built pre-states. select!-gate composition unverified. Known findings: id reuse while PUBCOMP pending; v5 receive-maximum lowered below the id counter.'),
+    'C10': dict(engine='kani-contracts', technique=_KANI_STATE,
+        level='Bounded (table size, 8-bit incoming id table) contracts for every inbound/outbound handler: reply kind and id, manual acks, unsolicited acks => Err with bookkeeping unchanged, one Outgoing event per written packet and none otherwise; ids full u16.',
+        note='Trusted: Kani/CBMC; handle_incoming_packet dispatcher and Network batching not under contract.'),
+    'C11': dict(engine='native-bounded', technique='exhaustive native enumeration of all well-formed states / all publish-ack scripts against the contract of clean() (bounded stand-in: CBMC cannot inspect the returned Vec<Request>)',
+        level='BOUNDED stand-in, not a proof: clean() returns exactly the unacknowledged publishes (original id/content) in the documented rotation order then the pending releases, for all wf states with max_inflight <= 3/4; after any in-order-ack history of length <= 9/12 that order is the send order.',
+        note='Bounded enumeration on the compiled real code; EventLoop ordering (async) unverified.'),
+    'C18': dict(engine='kani-contracts', technique='Kani loop-free contract harness on outgoing_ping / handle_incoming_pingresp (Instant::now stubbed)',
+        level='REDUCED SCOPE: complete proof of the ping-flag protocol only (unanswered ping reported at the next ping; answered ping never reported; collision timeout). All timing clauses of C18 are outside this family (tokio timers) and are NOT decided.',
+        note='Trusted: Kani/CBMC, Instant::now stub. Timing not covered.'),
+    'C09': dict(engine='verus-weave', technique='Verus deductive proof of the window invariant and FIFO ack contracts on the verbatim Outgoing methods, plus the wake-up table of Tracker::try_ready',
+        level='Unbounded proof for the ack side: WIN preserved by register_ack, strict FIFO, free_slots == 100 - len, WIN => ids non-zero and pairwise distinct, IncomingAck resumes an InflightFull/Caughtup connection. push_forwards (id assignment) is NOT yet under contract: the window bound on the push side is unverified in this revision.',
+        note='Trusted: Verus/Z3, stand-in declarations of foreign field types. Router glue (forward_device_data, consume) unverified.'),
+    'C12': dict(engine='native-bounded', technique='exhaustive native enumeration of all (topic, filter) pairs up to a length bound against an executable transcription of the MQTT rules, in each of the three copies, plus digest comparison across copies (bounded stand-in: no verifier here reasons about str)',
+        level='BOUNDED stand-in, not a proof: all topics/filters of <= 4/4 (quick) or 5/4 (thorough) characters over {a,B,/,+,#,$,2-byte,4-byte char}: matches == rules on valid pairs, valid_filter/valid_topic/has_wildcards == rules, no panic on any string of the space, three copies agree on every input of the space.',
+        note='Bounded enumeration on the compiled real code.'),
     'C13': dict(
         engine='verus-weave',
         technique='Verus deductive proof (SMT) of pre/postconditions and a representation invariant on the verbatim CommitLog/Segment code, with a sequence-algebra spec of the retained suffix',
